@@ -10,7 +10,7 @@ import (
 
 var readSizes = []int{1, 2, 100, 4095, 4096, 16384, 65535, 65536, 70000}
 var readChunks = []int{1, 7, 100, 1000, 4096, 16384, 70000}
-var writeSizes = []int{0, 1, 100, 4095, 4096, 4097, 16383, 16384, 16385, 65535, 65536, 65537, 200000}
+var writeSizes = []int{0, 1, 100, 4095, 4096, 4097, 16383, 16384, 16385, 65535, 65536, 65537, 100000}
 var writeChunks = []int{1, 13, 512, 4096, 5000, 16384, 70000, 300000}
 var initWindows = []int64{0, 1, 2, 100, 4096, 16384, 65535, 65536, 65537, 100000, 1 << 20}
 
@@ -18,8 +18,8 @@ func pickInt(g *vkit.Rand, xs []int) int     { return xs[g.Intn(len(xs))] }
 func pickI64(g *vkit.Rand, xs []int64) int64 { return xs[g.Intn(len(xs))] }
 func readChunkFor(g *vkit.Rand, n int) int {
 	c := pickInt(g, readChunks)
-	if c < 100 && n > 5000 {
-		c = 100 + g.Intn(900) // keep the number of Read calls bounded
+	if c < 100 && n > 600 {
+		c = 100 + g.Intn(900) // keep the number of Read calls (two WINDOW_UPDATEs each) bounded
 	}
 	return c
 }
@@ -29,7 +29,7 @@ func writeStep(g *vkit.Rand, big bool) hStep {
 	if g.Chance(1, 3) {
 		n = g.Intn(70000)
 	}
-	if big && g.Chance(1, 12) {
+	if big && g.Chance(1, 40) {
 		n = 1 << 20
 	}
 	c := pickInt(g, writeChunks)
